@@ -318,20 +318,19 @@ theorem readNum_nat {ds rest : List Char} (h : ds.all isDigit = true) (hne : ds 
   have hc : isDigit c = true := by
     rw [List.all_cons, Bool.and_eq_true] at h; exact h.1
   have hm : c ≠ '-' := digit_ne hc '-' (by decide)
-  have hsign : ((c :: r ++ rest).head? == some '-') = false := by
-    simp [hm]
+  have hsign : ¬ ((c :: r ++ rest).head? = some '-') := fun e => hm (Option.some.inj e)
   unfold readNum
-  simp only [hsign, Bool.false_eq_true, if_false]
-  rw [scan_digits false _ _ h, scan_term false hf]
-  simp only [List.append_nil, Bool.false_eq_true, if_false, readInt_digits h hne]
+  rw [if_neg hsign, scan_digits false _ _ h, scan_term false hf]
+  simp only [finishNum, List.append_nil, Bool.false_eq_true, if_false, readInt_digits h hne]
 
 theorem readNum_neg {ds rest : List Char} (h : ds.all isDigit = true) (hne : ds ≠ [])
-    (hf : Follow rest) : readNum ('-' :: ds ++ rest) = some (.int (-(readNat ds : Int)), rest) := by
-  have hsign : (('-' :: ds ++ rest).head? == some '-') = true := by simp
+    (hf : Follow rest) : readNum ('-' :: (ds ++ rest)) = some (.int (-(readNat ds : Int)), rest) := by
+  have hsign : ('-' :: (ds ++ rest)).head? = some '-' := rfl
   unfold readNum
-  simp only [hsign, if_true, List.cons_append, List.drop_succ_cons, List.drop_zero]
+  rw [if_pos hsign]
+  show finishNum true (scanNum 0 false (ds ++ rest)) = _
   rw [scan_digits false _ _ h, scan_term false hf]
-  simp only [List.append_nil, Bool.false_eq_true, if_false, readInt_neg h hne]
+  simp only [finishNum, List.append_nil, Bool.false_eq_true, if_false, if_true, readInt_neg h hne]
 
 theorem readNum_int (n : Int) {rest : List Char} (hf : Follow rest) :
     readNum (showInt n ++ rest) = some (.int n, rest) := by
@@ -339,7 +338,7 @@ theorem readNum_int (n : Int) {rest : List Char} (hf : Follow rest) :
   have hr : readNat (showNat n.natAbs) = n.natAbs := readNat_showNatF _ _ (by omega)
   unfold showInt
   split
-  · rw [readNum_neg hd.1 hd.2 hf, hr]
+  · rw [List.cons_append, readNum_neg hd.1 hd.2 hf, hr]
     have : (-(n.natAbs : Int)) = n := by omega
     rw [this]
   · rw [readNum_nat hd.1 hd.2 hf, hr]
@@ -357,21 +356,23 @@ theorem real_token_roundtrip {tok rest : List Char} (h : wfRealTok tok = true) (
     by_cases hm : c = '-'
     · subst hm
       rw [if_pos rfl] at h
-      have hsign : (('-' :: r ++ rest).head? == some '-') = true := by simp
+      have hsign : ('-' :: r ++ rest).head? = some '-' := rfl
       have hs := scan_tok r .s0 false rest h (by intro hh; exact absurd rfl hh.1) hf
       simp only [kOf] at hs
+      have hw : wfRealTok ('-' :: r) = true := by simp only [wfRealTok, if_true]; exact h
       unfold readNum
-      simp only [hsign, if_true, List.cons_append, List.drop_succ_cons, List.drop_zero, hs]
-      have : wfRealTok ('-' :: r) = true := by simp only [wfRealTok, if_true]; exact h
-      simp only [this, if_true]
+      rw [if_pos hsign]
+      show finishNum true (scanNum 0 false (r ++ rest)) = _
+      rw [hs]
+      simp only [finishNum, if_true, hw]
     · rw [if_neg hm] at h
-      have hsign : ((c :: r ++ rest).head? == some '-') = false := by simp [hm]
+      have hsign : ¬ ((c :: r ++ rest).head? = some '-') := fun e => hm (Option.some.inj e)
       have hs := scan_tok (c :: r) .s0 false rest h (by intro hh; exact absurd rfl hh.1) hf
       simp only [kOf] at hs
+      have hw : wfRealTok (c :: r) = true := by simp only [wfRealTok, if_neg hm]; exact h
       unfold readNum
-      simp only [hsign, Bool.false_eq_true, if_false, hs, if_true]
-      have : wfRealTok (c :: r) = true := by simp only [wfRealTok, if_neg hm]; exact h
-      simp only [this, if_true]
+      rw [if_neg hsign, hs]
+      simp only [finishNum, Bool.false_eq_true, if_false, if_true, hw]
 
 example : wfRealTok "1e-07".toList = true ∧ wfRealTok "1e+22".toList = true ∧
     wfRealTok "-2.5".toList = true ∧ wfRealTok "1.2345678901234568e+17".toList = true ∧
@@ -418,13 +419,11 @@ theorem span_symbolic (s rest : List Char) (hs : s.all isSymbolic = true) (hf : 
     | nil => exact ⟨rfl, rfl⟩
     | cons c r =>
       have t := (term_not (hf c r rfl)).2.2.2.2.2
-      simp only [List.nil_append, List.takeWhile_cons, List.dropWhile_cons, t, Bool.false_eq_true, if_false]
-      exact ⟨rfl, rfl⟩
+      constructor <;> simp [List.takeWhile_cons, List.dropWhile_cons, t]
   | cons c r ih =>
     rw [List.all_cons, Bool.and_eq_true] at hs
     have := ih hs.2
-    simp only [List.cons_append, List.takeWhile_cons, List.dropWhile_cons, hs.1, if_true, this.1, this.2]
-    exact ⟨rfl, rfl⟩
+    constructor <;> simp [List.takeWhile_cons, List.dropWhile_cons, hs.1, this.1, this.2]
 
 /-! ## skip -/
 
@@ -565,9 +564,9 @@ theorem read_real (f : Nat) (nl : Bool) {tok rest : List Char} (h : wfRealTok to
         exact ⟨⟨'-', _, rfl, by decide, fun e => absurd e (by decide)⟩, classify_minus _ hd⟩
       · rw [if_neg hm] at h
         obtain ⟨d, r', e, hd, d2, r2, e2, hd2⟩ := accTok_s0_head h
-        cases e
+        obtain ⟨rfl, rfl⟩ := List.cons.inj e
         subst e2
-        refine ⟨⟨d, _, rfl, digit_not_space hd, fun e => absurd e (digit_ne hd ':' (by decide))⟩, ?_⟩
+        refine ⟨⟨c, _, rfl, digit_not_space hd, fun e => absurd e (digit_ne hd ':' (by decide))⟩, ?_⟩
         exact classify_digit true _ hd (by simpa using hd2)
   rw [kgReadF]
   simp only [skipF_id f nl key.1, key.2, hnum, Option.map_some]
@@ -603,20 +602,20 @@ theorem wfSym_head {s : List Char} (h : wfSym s = true) :
     exact ⟨a, r, rfl, h.1, h.2⟩
 
 theorem read_sym (f : Nat) (neg nl : Bool) {s rest : List Char} (h : wfSym s = true)
-    (hf : Follow rest) : kgReadF (f + 1) neg nl (':' :: s ++ rest) = some (some (.sym s), rest) := by
+    (hf : Follow rest) : kgReadF (f + 1) neg nl (':' :: (s ++ rest)) = some (some (.sym s), rest) := by
   obtain ⟨a, r, e, ha, hall⟩ := wfSym_head h
   have hne : a ≠ '"' := by
     rcases ha with ha | ha
     · rintro rfl; revert ha; decide
     · rw [ha]; decide
-  have hg : GoodStart (':' :: s ++ rest) := by
+  have hg : GoodStart (':' :: (s ++ rest)) := by
     subst e
     exact ⟨':', _, rfl, by decide, fun _ => ⟨a, r ++ rest, rfl, hne⟩⟩
-  have hcl : classify neg (':' :: s ++ rest) = .colonSym := by
+  have hcl : classify neg (':' :: (s ++ rest)) = .colonSym := by
     subst e; exact classify_colon_sym neg _ ha
   have hsp := span_symbolic s rest hall hf
   rw [kgReadF]
-  simp only [skipF_id f nl hg, hcl, List.cons_append, List.drop_succ_cons, List.drop_zero, readSym, hsp.1, hsp.2]
+  simp only [skipF_id f nl hg, hcl, List.drop_succ_cons, List.drop_zero, readSym, hsp.1, hsp.2]
 
 /-! ## dictionaries -/
 
@@ -659,7 +658,7 @@ theorem mkDictAcc_id (es : List Val) : ∀ (acc : List Val), entriesOK es = true
           intro a ha
           exact hacc a ha _ (List.mem_cons_self ..)
         simp only [mkDictAcc, hk, if_true, dictSet_new k v acc hnew]
-        rw [ih (acc ++ [.list [k, v]]) hok.2 hdist.2]
+        rw [ih (acc ++ [Val.list [k, v]]) hok.2 hdist.2]
         · simp
         · intro a ha e' he'
           rcases List.mem_append.mp ha with ha | ha
@@ -689,7 +688,10 @@ theorem readListF_end (f : Nat) {delim : Char} (rest : List Char) (hd : delim = 
   have hg : GoodStart (delim :: rest) := by
     refine ⟨delim, rest, rfl, ?_, ?_⟩
     · rcases hd with rfl | rfl <;> decide
-    · intro e; rcases hd with rfl | rfl <;> revert e <;> decide
+    · intro e; exfalso
+      rcases hd with rfl | rfl
+      · exact absurd e (by decide)
+      · exact absurd e (by decide)
   rw [readListF, skipF_id f true hg]
   simp only [if_true]
 
@@ -722,7 +724,7 @@ theorem write_start (v : Val) (h : wfTok v = true) : StartOK (kgWrite v) := by
       have hall := hd.1
       rw [hcr, List.all_cons, Bool.and_eq_true] at hall
       rw [hcr]
-      exact ⟨c, r, rfl, digit_not_space hall.1, digit_ne hall.1 _ (by decide), digit_ne hall.1 _ (by decide),
+      exact ⟨c, r, rfl, digit_not_space hall.1, digit_ne hall.1 ']' (by decide), digit_ne hall.1 '}' (by decide),
         fun e => absurd e (digit_ne hall.1 ':' (by decide))⟩
   | real t =>
     simp only [wfTok] at h
@@ -736,8 +738,8 @@ theorem write_start (v : Val) (h : wfTok v = true) : StartOK (kgWrite v) := by
         exact ⟨'-', _, rfl, by decide, by decide, by decide, fun e => absurd e (by decide)⟩
       · rw [if_neg hm] at h
         obtain ⟨d, r', e, hd, _⟩ := accTok_s0_head h
-        cases e
-        exact ⟨d, _, rfl, digit_not_space hd, digit_ne hd _ (by decide), digit_ne hd _ (by decide),
+        obtain ⟨rfl, rfl⟩ := List.cons.inj e
+        exact ⟨c, _, rfl, digit_not_space hd, digit_ne hd ']' (by decide), digit_ne hd '}' (by decide),
           fun e => absurd e (digit_ne hd ':' (by decide))⟩
   | chr c => exact ⟨'0', _, rfl, by decide, by decide, by decide, fun e => absurd e (by decide)⟩
   | sym s =>
@@ -770,6 +772,7 @@ theorem readListF_step (f : Nat) {delim : Char} (x : Val) (tail : List Char)
   rw [readListF, skipF_id f true hg]
   rw [hcr] at hx ⊢
   simp only [hne, if_false, hx]
+  rfl
 
 /-! ## the round trip, for every value and whatever follows it -/
 
@@ -790,6 +793,7 @@ theorem read_val : ∀ (v : Val), wfTok v = true → ∀ (f : Nat) (nl : Bool) (
   | .sym s, h, f, nl, rest, hf, hl => by
     obtain ⟨f', rfl⟩ : ∃ f', f = f' + 1 := ⟨f - 1, by omega⟩
     simp only [wfTok] at h
+    simp only [kgWrite, List.cons_append]
     exact read_sym f' true nl h hf
   | .str cs, _, f, nl, rest, hf, hl => by
     obtain ⟨f', rfl⟩ : ∃ f', f = f' + 1 := ⟨f - 1, by omega⟩
